@@ -268,6 +268,12 @@ fn mp_wrong(rng: &mut Rng) -> Vec<u8> {
     }
 }
 
+/// one byte of every class of marker the reader distinguishes, and payload bytes that matter
+pub const MARKERS: &[u8] = &[
+    0x00, 0x01, 0x02, 0x61, 0x7f, 0x80, 0x81, 0x82, 0x90, 0x91, 0x92, 0xa1, 0xc0, 0xc2, 0xc4, 0xc5, 0xc6, 0xca, 0xcc, 0xcd, 0xce,
+    0xcf, 0xd0, 0xd1, 0xd2, 0xd3, 0xd9, 0xdc, 0xdd, 0xde, 0xdf, 0xe0, 0xff,
+];
+
 /// Bytes for a merge file derived from `table` (entry i has id i) and the kind of stream.
 /// Whether the real loader takes them is for the loader (and the model) to say.
 pub fn gen_merge_file(rng: &mut Rng, table: &Table) -> (Vec<u8>, &'static str) {
@@ -276,7 +282,12 @@ pub fn gen_merge_file(rng: &mut Rng, table: &Table) -> (Vec<u8>, &'static str) {
     if rng.chance(3, 4) {
         rng.shuffle(&mut entries);
     }
-    let kind = match rng.below(20) {
+    let kind = match rng.below(22) {
+        20..=21 => {
+            // short strings over the markers the reader distinguishes (and a few payload bytes)
+            let l = rng.range(1, 10);
+            return ((0..l).map(|_| *rng.pick(MARKERS)).collect(), "markers");
+        }
         0 => "canonical",
         1..=2 => "widths",
         3 => "headers",
@@ -284,7 +295,7 @@ pub fn gen_merge_file(rng: &mut Rng, table: &Table) -> (Vec<u8>, &'static str) {
         6..=7 => "dupkeys",
         8..=9 => "trailing",
         10 => "count-short",
-        11 => "count-long",
+        11 => if rng.chance(1, 2) { "count-long" } else { "ids" },
         12..=13 => "truncated",
         14..=16 => "wrong-type",
         17 => "ids",
@@ -313,12 +324,16 @@ pub fn gen_merge_file(rng: &mut Rng, table: &Table) -> (Vec<u8>, &'static str) {
     }
     if kind == "ids" && n > 0 {
         let i = rng.below(entries.len());
-        entries[i].1 = match rng.below(5) {
+        entries[i].1 = match rng.below(8) {
             0 => u32::MAX as u64,
             1 => n as u64,
             2 => entries[(i + 1) % entries.len()].1,
             3 => 65536 + rng.below(3) as u64,
-            _ => (1u64 << 31) + rng.below(2) as u64,
+            4 => (1u64 << 31) + rng.below(2) as u64,
+            // beyond u32: a loader that reads wider integers and truncates would take these
+            5 => (1u64 << 32) + rng.below(n + 1) as u64,
+            6 => (1u64 << 40) + entries[i].1,
+            _ => u64::MAX - rng.below(2) as u64,
         };
     }
     let count = match kind {
